@@ -38,11 +38,38 @@ SCAN_PROGRAMS = [
     ('100,101,200,201,300', 'Q300-100|I102;I103|R300'),
     ('1,2,3,4', 'Sf;Sr|I5;R1'),                               # growth of the node being scanned
     ('10100,10101,10200,20000', 'Sf|R10200|I10300'),
+    ('100,101,102,200,201', 'Sf|R102'),                      # re-seek to a removed key that was the last of its node (fall-off)
+    ('100,101,200,201,202', 'Sr|R200'),
+    ('100,101,200,201,300', 'F105f;F1ffr|I106;R106'),        # bounds that leave the tree below the root
+    ('1,2,3,10,11', 'Sf!2;Sr!3|I4;R2'),                      # visitor halts the scan
+    ('100,101,200,201,300', 'F101f!2;Q300-100!1|R200;I250'),
 ]
 GROW_PROGRAMS = [
     (','.join('%x' % i for i in range(1, 17)), 'I11|G1;G10|R5'),       # 16 -> 48
     (','.join('%x' % i for i in range(1, 18)), 'R11|G1;G10|I12'),      # 48 -> 16
+    (','.join('%x' % i for i in range(1, 49)), 'I31|G1;G30|R5'),       # 48 -> 256
+    (','.join('%x' % i for i in range(1, 50)), 'R31|G1;G30|I32'),      # 256 -> 48
 ]
+
+
+def two_writer_programs(thorough):
+    """writer A changes the inner node C (under root byte 01, own prefix byte 01) while writer B changes its parent P (the
+    root) or splits C's prefix; a reader looks up a stable key of C and the key A inserts.  k = children of C, np = children
+    of P: node full / at its minimum / in between, so that A and B perform add, grow, remove, collapse, prefix split"""
+    out = []
+    for k in (2, 3, 4):
+        for np_ in (2, 4):
+            ckeys = ['101%02x' % c for c in range(k)]
+            pkeys = ['%x0000' % a for a in range(2, np_ + 1)]
+            init = ','.join(ckeys + pkeys)
+            a_ops = ['I101%02x' % k, 'R10100']
+            b_ops = ['I70000', 'R20000', 'I10200']
+            for ai, a in enumerate(a_ops):
+                for bi, b in enumerate(b_ops):
+                    if not thorough and (k + np_ + ai + bi) % 3 != 0:
+                        continue
+                    out.append((init, '%s|%s|G101%02x;G101%02x' % (a, b, k - 1, k)))
+    return out
 
 
 def programs(pid, tier):
@@ -51,8 +78,10 @@ def programs(pid, tier):
         progs = list(SCAN_PROGRAMS) + POINT_PROGRAMS[:3]
     elif pid in ('C04', 'C14'):
         progs = POINT_PROGRAMS[:8] + SCAN_PROGRAMS[:4]
-    if tier == 'thorough' or pid == 'C03':
+    if tier == 'thorough' or pid in ('C03', 'C04'):
         progs += GROW_PROGRAMS
+    if pid in ('C03', 'C14', 'C04'):
+        progs += two_writer_programs(tier == 'thorough')
     return progs
 
 
@@ -70,8 +99,9 @@ def scan_problems(block_lines):
         elif t[0] == 'V':
             head, _, rest = l.partition(' :')
             h = head.split(' ')
-            seen = [(int(x.split('=')[0]), int(x.split('=')[1])) for x in rest.split()]
-            scans.append({'inv': int(h[2]), 'ret': int(h[3]), 'kind': h[4], 'a': int(h[5]), 'b': int(h[6]), 'fwd': h[7] == 'f', 'seen': seen})
+            seen = [(int(x.split('=')[0]), int(x.split('=')[1].split('@')[0])) for x in rest.split()]
+            scans.append({'inv': int(h[2]), 'ret': int(h[3]), 'kind': h[4], 'a': int(h[5]), 'b': int(h[6]), 'fwd': h[7] == 'f',
+                          'halted': h[8] == 'h', 'seen': seen})
     probs = []
     touched = set(c['key'] for c in calls if c['op'] in 'IR')
     ever = set(init) | set(c['key'] for c in calls if c['op'] == 'I')
@@ -109,9 +139,66 @@ def scan_problems(block_lines):
                 if v not in ok_vals:
                     probs.append('scan delivered key %x with a value it never held' % k)
         for k in init:
+            if s['halted']:
+                # only up to the point where the visitor halted the scan
+                last = keys[-1] if keys else None
+                if last is None or (fwd and k > last) or (not fwd and k < last):
+                    continue
             if k not in touched and inside(k) and keys.count(k) != 1:
                 probs.append('key %x, present for the whole scan and inside the interval, was delivered %d times' % (k, keys.count(k)))
     return probs
+
+
+def c10_concurrent(res, tier):
+    """C10 for the OLC index after concurrent phases (called by p_art): explore writer-heavy programs and collect
+    the 'C10:' problems olc_sched reports once all threads have quiesced"""
+    srcs = [os.path.join(VERIF, 'harness', 'olc_sched.cpp')] + [os.path.join(REPO, f) for f in ('qsbr.cpp', 'qsbr_ptr.cpp', 'art_internal.cpp')]
+    with Lock():
+        b, berr = build_cxx('olc_sched', srcs, HOOK_FLAGS)
+    if berr:
+        res.violation('cannot build the exploration: ' + berr[-600:], {'kind': 'build'}, found_input=False)
+        return
+    thorough = tier == 'thorough'
+    progs = [POINT_PROGRAMS[0], POINT_PROGRAMS[3], POINT_PROGRAMS[5], POINT_PROGRAMS[7], POINT_PROGRAMS[8], POINT_PROGRAMS[9]] + GROW_PROGRAMS + [
+        ('1,2,3,4', 'I5|I6|I7'),                                                     # racing inserts into a full node: one growth
+        (','.join('%x' % i for i in range(1, 17)), 'I11|I12|I13'),
+        ('1,2,3,4,5', 'R1|R2|R3'),                                                   # racing removes at the minimum size: one shrink
+    ]
+    from concurrent.futures import ThreadPoolExecutor
+
+    def run(job):
+        i, (init, prog) = job
+        big = init.count(',') >= 30
+        mx = 6000 if thorough else 800
+        rnd = 1000 if thorough else 100
+        return job, sh([os.path.join(BIN, 'olc_sched'), '--init', init, '--prog', prog, '--bound', '2' if thorough else '1', '--max',
+                        str(mx // 8 if big else mx), '--random', str(rnd // 6 if big else rnd), '--seed', str(seed() + i), '--qs', 'every',
+                        '--sample', '0'], timeout=3000 if thorough else 600)
+    with ThreadPoolExecutor(max_workers=8) as ex:
+        outs = list(ex.map(run, list(enumerate(progs))))
+    execs = nbad = 0
+    for (i, (init, prog)), (rc, o, e) in outs:
+        if rc != 0:
+            res.violation('olc_sched failed (rc=%d) on init {%s} program %s: %s' % (rc, init, prog, (e or o)[-300:]),
+                          {'kind': 'crash', 'init': init, 'program': prog})
+            continue
+        for blk in o.split('\nY\n'):
+            lines = blk.splitlines()
+            xs = [l for l in lines if l.startswith('X')]
+            if not xs:
+                continue
+            execs += 1
+            probs = [l[2:] for l in lines if l.startswith('P C10:')]
+            if probs:
+                nbad += 1
+                if nbad <= 3:
+                    res.violation('C10 violated on the OLC index after a concurrent phase (init {%s}, program %s): %s' % (init, prog, probs[0]),
+                                  {'kind': 'property-on-implementation', 'init': init, 'program': prog, 'qs': 'every',
+                                   'schedule': xs[0][2:].replace(' ', ','), 'problems': probs})
+    res.coverage['olc_concurrent_executions_checked'] = execs
+    if execs < len(progs) * 5:
+        res.violation('the concurrent C10 exploration is vacuous (%d executions)' % execs, {'kind': 'correspondence', 'broken': 'olc_sched'},
+                      found_input=False)
 
 
 def check(pid, tier, replay=None):
@@ -125,7 +212,8 @@ def check(pid, tier, replay=None):
     ]
     have = os.path.exists(os.path.join(COQ, PROPS[pid]))
     if have:
-        proof_stage(res, ['lock'], [PROPS[pid]], pid)
+        extra = {'C09': ['Properties/Properties_C09b.v'], 'C03': ['Properties/Properties_C03b.v', 'Properties/Properties_C03c.v']}
+        proof_stage(res, ['lock'], [PROPS[pid]] + extra.get(pid, []), pid)
     else:
         res.proof_ok, res.broken, res.proof_log = True, [], ''
     res.coverage['trusted_base'] = TRUSTED_COMMON + [
@@ -162,8 +250,11 @@ def check(pid, tier, replay=None):
 
     def run(job):
         i, init, prog, qs = job
-        rc, o, e = sh([os.path.join(BIN, 'olc_sched'), '--init', init, '--prog', prog, '--bound', str(bound), '--max', str(maxe),
-                       '--random', str(nrand), '--seed', str(seed() + i), '--qs', qs, '--sample', str(sample)], timeout=3400)
+        # big initial trees (node classes 48 / 256): every execution is long, so fewer of them and sparser trace sampling
+        big = init.count(',') >= 30
+        rc, o, e = sh([os.path.join(BIN, 'olc_sched'), '--init', init, '--prog', prog, '--bound', str(bound),
+                       '--max', str(maxe // 8 if big else maxe), '--random', str(nrand // 6 if big else nrand), '--seed', str(seed() + i),
+                       '--qs', qs, '--sample', str(sample * 16 if big else sample)], timeout=3400 if thorough else 900)
         if rc != 0:
             return job, rc, o, e, '', ''
         rc2, lin, e2 = sh([os.path.join(OCAML, 'lin_run')], input=o, timeout=1800)
@@ -171,9 +262,11 @@ def check(pid, tier, replay=None):
         return job, rc, o, e, lin, rep
     with ThreadPoolExecutor(max_workers=8) as ex:
         outs = list(ex.map(run, jobs))
-    total = nbad = traces = rejected = events = 0
+    total = nbad = traces = rejected = events = nscan_checked = proto_ops = proto_bad = 0
+    scan_chain_bad = []
     distinct = set()
     samples = []
+    nproto = 0
     mine = {'C03': ('C03:',), 'C04': ('C04:',), 'C09': (), 'C14': ('C14:',)}[pid]
     for (i, init, prog, qs), rc, o, e, lin, rep in outs:
         if rc != 0:
@@ -183,11 +276,32 @@ def check(pid, tier, replay=None):
             continue
         blocks = o.split('\nY\n')
         verdicts = [l for l in lin.splitlines() if l == 'ok' or l.startswith('NONLIN') or l == 'TOOLONG']
+        # per execution: 'SCAN ...' follows the point verdict when the execution contains scans
+        scan_verdicts = {}
+        vi = -1
+        for l in lin.splitlines():
+            if l == 'ok' or l.startswith('NONLIN') or l == 'TOOLONG':
+                vi += 1
+            elif l.startswith('SCAN '):
+                scan_verdicts[vi] = l[5:]
         for l in rep.splitlines():
             if l.startswith('T traces='):
                 traces += int(l.split('traces=')[1].split()[0])
                 rejected += int(l.split('rejected=')[1].split()[0])
-                events += int(l.split('events=')[1])
+                events += int(l.split('events=')[1].split()[0])
+                if 'protocol_ops=' in l:
+                    proto_ops += int(l.split('protocol_ops=')[1].split()[0])
+                    proto_bad += int(l.split('protocol_bad=')[1].split()[0])
+        proto_all = [l for l in rep.splitlines() if l.startswith('PROTO')]
+        is_scan_line = lambda l: (l.split(' op ')[1][:1] not in 'GIR') if ' op ' in l else False
+        proto_lines = [l for l in proto_all if is_scan_line(l) == (pid == 'C09')] if pid in ('C03', 'C09') else []
+        if proto_lines and nproto < 2:
+            nproto += 1
+            res.violation('an operation of the implementation does not follow the optimistic read protocol the C03 / C09 theorems assume (%s) on init '
+                          '{%s} program %s; no non-linearizable history was needed to see it' % (proto_lines[0][6:], init, prog),
+                          {'kind': 'correspondence', 'init': init, 'program': prog, 'qs': qs,
+                           'broken': 'Olc/Protocol.op_ok on the trace of the operation (hypotheses of C03_reader_linearizable)',
+                           'lines': proto_lines[:5]}, found_input=False)
         rej_lines = [l for l in rep.splitlines() if l.startswith('REJECT')]
         if rej_lines and pid in ('C03', 'C14') and nbad < 3:
             which = [l for l in rej_lines if ('waits' in l) == (pid == 'C14')]
@@ -210,6 +324,11 @@ def check(pid, tier, replay=None):
                 probs.append('the recorded history is not linearizable (%s)' % verdicts[bi])
             if pid == 'C09':
                 probs += scan_problems(lines)
+                sv = scan_verdicts.get(bi)
+                if sv is not None:
+                    nscan_checked += 1
+                    if sv.startswith('NONLIN'):
+                        scan_chain_bad.append((init, prog, qs, sched, body))
             if probs:
                 nbad += 1
                 if nbad <= 3:
@@ -218,6 +337,40 @@ def check(pid, tier, replay=None):
                                    'history': body, 'problems': probs})
             if len(samples) < 2 and bi == 5:
                 samples.append({'init': init, 'program': prog, 'schedule': sched[:200], 'history': body})
+    if pid == 'C14':
+        # allocation-failure points on the OLC index: an operation that throws must leave no lock behind, so its
+        # retry (same path) and the following operations terminate
+        import p_fault
+        fsrcs = [os.path.join(VERIF, 'harness', 'fault_enum.cpp')] + [os.path.join(REPO, f) for f in ('qsbr.cpp', 'qsbr_ptr.cpp', 'art_internal.cpp', 'test_heap.cpp')]
+        with Lock():
+            fb, ferr = build_cxx('fault_enum', fsrcs, p_fault.DBG_HOOKS)
+        nfault = 0
+        if ferr:
+            res.violation('cannot build the fault enumeration: ' + ferr[-500:], {'kind': 'build'}, found_input=False)
+        else:
+            for kind in ('u64', 'bytes'):
+                hs = p_fault.histories(tier, kind)[:(40 if thorough else 8)]
+                for tag, ops in hs:
+                    rc, a, e = sh([os.path.join(BIN, 'fault_enum'), 'olc', kind], input='\n'.join(ops) + '\n', timeout=120)
+                    nfault += sum(int(l.split(' a=')[1].split()[0]) for l in a.splitlines() if ' a=' in l)
+                    if rc != 0 or len(a.splitlines()) != len(ops):
+                        res.violation('C14 violated on the implementation: after an allocation failure on olc_db/%s (history %s) the run did not '
+                                      'complete (rc=%s, %d of %d operations): a lock was left held or an assertion failed: %s'
+                                      % (kind, tag, rc, len(a.splitlines()), len(ops), (e or '')[-200:]),
+                                      {'kind': 'property-on-implementation', 'class': 'olc', 'kind_': kind, 'ops': ops[:len(a.splitlines()) + 1]})
+                        break
+        res.coverage['olc_fault_points_followed_by_retry'] = nfault
+    if pid == 'C09' and scan_chain_bad and not res.violations:
+        # the tie between the abstract scan theorem and the iterator is broken (a scan that is not a chain of atomic
+        # successor queries) although none of the property's clauses was seen to fail on the explored executions
+        init, prog, qs, sched, body = scan_chain_bad[0]
+        res.violation('a scan of the implementation is not a chain of atomic successor queries (hypothesis of the C09 theorems) in %d '
+                      'executions, first on init {%s} program %s' % (len(scan_chain_bad), init, prog),
+                      {'kind': 'correspondence', 'init': init, 'program': prog, 'qs': qs, 'schedule': sched, 'history': body,
+                       'broken': 'scan_fwd correspondence (lin_run SCAN verdict)'}, found_input=False)
+    if pid == 'C09' and nscan_checked == 0:
+        res.violation('no scan was validated against the successor-query chain', {'kind': 'correspondence', 'broken': 'lin_run SCAN'},
+                      found_input=False)
     if total < len(jobs) * 5 or (traces == 0):
         res.violation('the exploration is vacuous (%d executions, %d traces validated): hooks or scheduler do not work' % (total, traces),
                       {'kind': 'correspondence', 'broken': 'olc_sched / hooks'}, found_input=False)
@@ -229,7 +382,9 @@ def check(pid, tier, replay=None):
     res.coverage.update({
         'evaluations': total, 'distinct_nontrivial': len(distinct), 'programs': len(jobs),
         'traces_validated_against_impl': traces - rejected, 'events_replayed': events, 'rejected_traces': rejected,
-        'preemption_bound': bound, 'property_failures_on_impl': nbad,
+        'operations_checked_by_protocol_acceptor': proto_ops, 'operations_rejected_by_protocol_acceptor': proto_bad,
+        'preemption_bound': bound, 'property_failures_on_impl': nbad, 'scans_validated_as_query_chains': nscan_checked,
+        'scans_not_query_chains': len(scan_chain_bad),
         'rule': 'programs of 2-3 QSBR threads (get / insert / remove / scan / scan_from / scan_range) on small initial trees chosen so that '
                 'the writers perform leaf split, prefix split, growth and shrink between node classes, collapse with inode and leaf sibling, '
                 'root replacement and root removal; quiescent states after every operation or only at thread end; all schedules with at most '
